@@ -46,17 +46,23 @@ def h_isosteric_raw(h, m, order):
     with stubs.patched((stats, 'linregress', lr)):
         enth, slopes, corr, errs = ie.isosteric_enthalpy_raw(P, isofix.column(h, Ts))
     cid = f'C19/isosteric-raw/m={m}/order={"".join(map(str, order))}'
-    h.claim(f'{cid}/one-regression-per-loading', len(lr.calls) == k and len(enth) == k)
+    h.claim(f'{cid}/one-enthalpy-per-loading', len(enth) == k)
+    if len(enth) != k:
+        return
+    # the result claim does not depend on HOW the slope is obtained (through the regression stub under the exact-line
+    # lemma, or by any other exact formula)
+    okr = True
+    for i in range(k):
+        okr = okr & h.close(enth[i], Q / 1000, 1e-7)
+    h.claim(f'{cid}/returns-the-built-in-enthalpy-in-kJ', okr)
+    if len(lr.calls) != k:
+        return          # no (or another number of) regressions: nothing to say about the wiring
     ok = True
     for i in range(k):
         xs, ys, slope, icpt, r = lr.calls[i]
         for j in range(m):
             ok = ok & h.close(xs[j], 1 / Ts[j], 1e-12) & h.close(ys[j], lnp[i][j], 1e-12)
     h.claim(f'{cid}/regression-gets-(1/T_j, ln p_ij)', ok)
-    okr = True
-    for i in range(k):
-        okr = okr & h.close(enth[i], Q / 1000, 1e-7)
-    h.claim(f'{cid}/returns-the-built-in-enthalpy-in-kJ', okr)
     oks = True
     for i in range(k):
         oks = oks & h.close(enth[i], -R_GAS * lr.calls[i][2] / 1000, 1e-8) & h.eq(slopes[i], lr.calls[i][2])
